@@ -4,8 +4,10 @@ package c20
 import (
 	"errors"
 	"fmt"
+	"github.com/btcsuite/btcwallet/wtxmgr"
 	"os"
 	"sort"
+	"strings"
 	"testing"
 	"time"
 
@@ -157,11 +159,16 @@ func (r *run) attempt(t *rapid.T) {
 			s.F.Client.NotifyReceivedErr = func([]btcutil.Address) error { return errors.New("simchain: subscription failed") }
 		}
 	}
+	// the label that is recorded with the transaction: none, an ordinary
+	// one, the longest allowed, or one that cannot be stored (the hand-over
+	// then cannot be completed: an error, and no trace)
+	label := rapid.SampledFrom([]string{"", "c20", "c20", strings.Repeat("l", wtxmgr.TxLabelLimit), strings.Repeat("L", wtxmgr.TxLabelLimit+1)}).Draw(t, "label")
+	labelTooLong := len(label) > wtxmgr.TxLabelLimit
 	var tx *wire.MsgTx
 	var err error
 	if viaSend {
 		program()
-		tx, err = s.F.W.SendOutputs(outs, &sc, acct, minconf, 2000, wallet.CoinSelectionLargest, "c20")
+		tx, err = s.F.W.SendOutputs(outs, &sc, acct, minconf, 2000, wallet.CoinSelectionLargest, label)
 	} else {
 		var opts []wallet.TxCreateOption
 		if len(chainFrom) > 0 {
@@ -176,7 +183,16 @@ func (r *run) attempt(t *rapid.T) {
 		tx = atx.Tx
 		before = r.snapshot()
 		program()
-		err = s.F.W.PublishTransaction(tx, "c20")
+		err = s.F.W.PublishTransaction(tx, label)
+	}
+	if labelTooLong {
+		s.C.Class("label-that-cannot-be-stored")
+		if err == nil {
+			s.F.Violation("a transaction was broadcast with a %d-byte label, which cannot be stored (limit %d)", len(label), wtxmgr.TxLabelLimit)
+		}
+		if offered != nil {
+			s.F.Violation("the label could not be stored and the call failed (%v), but the transaction was handed to the backend", err)
+		}
 	}
 	s.F.Client.SendAnswer, s.F.Client.NotifyReceivedErr = nil, nil
 	s.F.Quiesce()
